@@ -281,7 +281,20 @@ namespace awkward {
       return false;
     }
     if (NumpyForm* t = dynamic_cast<NumpyForm*>(other.get())) {
-      return (inner_shape_ == t->inner_shape()  &&  format_ == t->format());
+      if (inner_shape_ != t->inner_shape()) {
+        return false;
+      }
+      // one primitive type may be spelled by several format strings ('l' and
+      // 'q' are both int64 on this platform): compare the type; the format
+      // decides only where it carries more than the type (date-time units,
+      // non-primitive layouts)
+      if (dtype_ != util::dtype::NOT_PRIMITIVE  &&
+          dtype_ != util::dtype::datetime64  &&
+          dtype_ != util::dtype::timedelta64  &&
+          dtype_ == t->dtype()) {
+        return true;
+      }
+      return format_ == t->format();
     }
     else {
       return false;
